@@ -27,6 +27,8 @@ THEOREMS = [
     ("Kopf.Props.C05", "Kopf.C05.none_for_gone_free_noop"),
     ("Kopf.Props.C05", "Kopf.C05.resume_needs_initial_and_optin"),
     ("Kopf.Props.C05", "Kopf.C05.kinds_exclusive"),
+    ("Kopf.Props.C05", "Kopf.C05.field_handler_on_marked_witness"),
+    ("Kopf.Props.C05", "Kopf.C05.kindless_only_in_handled_causes"),
 ]
 TIE_THEOREMS = [
     ("Kopf.Tie.C05", "Kopf.C05.Tie.detect_eq"),
@@ -40,7 +42,11 @@ RULE = ("exhaustive: 2 event-type classes x marked x own-finalizer x stored-esse
         "a case is non-trivial when it is a distinct (input, output) pair")
 TRUSTED = ["pyextract atom vocabulary for causes.detect_changing_cause / ChangingRegistry.iter_handlers",
            "the six booleans are read off real bodies by kopf's own finalizers/diffbase code (exercised, not modelled, here)"]
-ASSUMPTIONS = ["filters (`match`) are C15's subject and appear here as an opaque boolean"]
+ASSUMPTIONS = ["filters (`match`) are C15's subject and appear here as an opaque boolean",
+               "reading of 'creation/update handlers': handlers declared with on.create/on.update (reason=create/update). "
+               "on.field handlers have no cause kind (docs: 'no special detection of the causes for the fields') and are let "
+               "into the deletion cause by the gate (`field_handler_on_marked_witness`); the clause is not claimed for them, "
+               "`kindless_only_in_handled_causes` is"]
 
 REASONS = ["create", "update", "delete", "resume", "noop", "free", "gone"]
 
